@@ -8,7 +8,7 @@ import fcntl, hashlib, json, os, re, shutil, subprocess, sys, time
 
 VERIF = os.path.dirname(os.path.dirname(os.path.abspath(__file__)))
 REPO = os.environ.get("VERIF_REPO", "/repo")
-BUILD = os.path.join(VERIF, "build")
+BUILD = os.environ.get("VERIF_BUILD", os.path.join(VERIF, "build"))   # development aid: side runs against a scratch copy of the repo
 COQ = os.path.join(VERIF, "coq")
 NPROC = os.cpu_count() or 4
 
@@ -456,8 +456,9 @@ class Reporter:
 def write_evidence(pid, tier, seed, coverage, assumptions, wall_s, violations):
     ev = {"property_id": pid, "tier": tier, "seed": seed, "level": "proof", "coverage": coverage,
           "assumptions": assumptions, "wall_s": round(wall_s, 2), "violations": violations}
-    os.makedirs(os.path.join(VERIF, "evidence"), exist_ok=True)
-    tmp = os.path.join(VERIF, "evidence", f".{pid}.json.tmp")
+    evdir = os.environ.get("VERIF_EVIDENCE_DIR", os.path.join(VERIF, "evidence"))
+    os.makedirs(evdir, exist_ok=True)
+    tmp = os.path.join(evdir, f".{pid}.json.tmp")
     with open(tmp, "w") as f:
         json.dump(ev, f, indent=1, default=str)
-    os.replace(tmp, os.path.join(VERIF, "evidence", f"{pid}.json"))
+    os.replace(tmp, os.path.join(evdir, f"{pid}.json"))
